@@ -38,6 +38,9 @@ def judge_species(ctx, what, herd_n, fed, owed, delivered, req, case, scale=0.0)
     if req == 0:
         if fed > herd_n + 1e-9 * max(1, herd_n):
             ctx.fail("fed-exceeds-herd-(stale-count-when-nothing-required)", "%s: herd %.6g but %.6g counted fed" % (what, herd_n, fed), case)
+        # a requirement of nothing is met: the whole (possibly empty) herd counts as fed
+        if abs(fed - herd_n) > 1e-9 * max(1, herd_n):
+            ctx.fail("nothing-required-but-fed-differs-from-herd", "%s: herd %.6g, %.6g counted fed" % (what, herd_n, fed), case)
         return
     # quantities below 1e-9 of the month's supply are arithmetic noise (herds decay geometrically, never to exactly 0):
     # inside that band the species may be judged satisfied or not
@@ -170,9 +173,15 @@ def run_herd(ctx, c):
                     grass_mult_head=c["grass_mult"][:6], species=[a.animal_type for a in animals]), limit=3)
     # priority order: net kcals gained per slaughter hour, descending
     # (the ranking is made from the species' tabulated livestock units, before the regional factor is applied)
-    keys = [priority_key(dict(type=a.animal_type, size=a.animal_size,
-                              need_per_head=a.livestock_unit * a.one_LSU_monthly_billion_kcal(),
-                              eff_feed=a.digestion_efficiency["feed"]), kd, a.animal_slaughter_hours) for a in animals]
+    one_lsu = 29000.0 / 12 / 4.187 * 1000 / 1e9
+    keys = []
+    for a in animals:
+        lsu, hours, size, digestion = herd.species_attributes(a.animal_type)     # from the shipped table, not from the objects under test
+        if (a.livestock_unit, a.animal_slaughter_hours, a.animal_size, a.digestion_type) != (lsu, hours, size, digestion):
+            ctx.fail("species-attributes-differ-from-the-shipped-table",
+                     "%s: object has %r, table has %r" % (a.animal_type, (a.livestock_unit, a.animal_slaughter_hours, a.animal_size, a.digestion_type),
+                                                          (lsu, hours, size, digestion)), case)
+        keys.append(priority_key(dict(type=a.animal_type, size=size, need_per_head=lsu * one_lsu, eff_feed=0.8), kd, hours))
     for i in range(len(keys) - 1):
         if keys[i] < keys[i + 1] * (1 - 1e-12):
             ctx.fail("species-not-served-in-priority-order",
@@ -184,7 +193,7 @@ def run_herd(ctx, c):
             ctx.fail("feeding-offered-different-supply-than-given", "month %d offered feed %.6g grass %.6g, supplied %.6g %.6g" % (m, f, g, feed[m], grass[m]), case)
         unsatisfied_before = False
         for sp in rec["species"]:
-            want = herd.ref_need_per_head(c["code"], sp["species_name"], sp["lsu"])
+            want = herd.ref_need_per_head(c["code"], sp["species_name"], herd.species_attributes(sp["type"])[0])
             if abs(sp["need_per_head"] - want) > 1e-12 * want:
                 ctx.fail("per-head-requirement-differs-from-livestock-units-x-regional-factor",
                          "month %d %s: the feeding step works with %.9g billion kcals per head, tabulated livestock units x one LSU x regional factor = %.9g"
@@ -198,7 +207,7 @@ def run_herd(ctx, c):
             if not sp["ruminant"] and g2 != g:
                 raise RuntimeError("reference allocator gave grass to a non-ruminant")
             g, f = g2, f2
-            digest = byname[sp["type"]].digestion_type
+            digest = herd.species_attributes(sp["type"])[3]
             if sp["ruminant"] != (digest == "ruminant"):
                 ctx.fail("grass-eligibility-differs-from-digestion-type", "%s digestion %s treated ruminant=%s" % (sp["type"], digest, sp["ruminant"]), case)
             judge_species(ctx, "month %d %s" % (m, sp["type"]), sp["herd"], sp["fed"], sp["owed"], delivered, rq, case,
